@@ -57,6 +57,18 @@ CLAIMS = {
    text="Structural proof that the reported offsets equal the byte counts PackageMetadata::write emits before each segment: static widths of every write_all operand summed per writer and matched with the coefficients of the size()/offset linear forms extracted from MIR; every Header construction/mutation site keeps num_entries == index_entries.len() and data_section_size == store.len(); writer and offsets call the same padding function; composition order equals offset order. All obligations are discharged on every run or the check fails.",
    technique="width summation + linear-form extraction + who-may-write size invariant + dominance",
    note="Trusted: rustc nightly MIR; Write::write_all contract; Vec::len/push semantics; absence of u32 overflow for parsed headers (established by Header::parse's checked arithmetic, re-checked by C04's allow-list precondition)."),
+ "C05": dict(cat="other", design="DESIGN.md §3 C05",
+   text="Table extraction over MIR against oracle tables: per-type arm table of the store decoder (decoder, width, count, NUL terminator), the variant sets each typed getter accepts, the (tag, getter) pairs of every public accessor through the helper functions and constant tag triples (rpm tag table), and the field-by-field provenance of Dependency / Scriptlet / ChangelogEntry / FileEntry values through zip positions; each string-list loop must step over the terminator. Decides that every accessor reads the right tag with the right type and position for every header.",
+   technique="arm-table / switch-table extraction + provenance terms through zip positions + oracle join"),
+ "C06": dict(cat="other", design="DESIGN.md §3 C06",
+   text="Field-flow completeness and table agreement: every field of the builder state and of per-file / scriptlet / dependency records must occur in the provenance of a header entry or archive write; each (field, tag, data type) row at the IndexEntry::new sites must equal the oracle and be of a type the matching accessor's getter accepts; no reordering call on list inputs; exactly one push per per-file vector per file in the single file loop. Value-level path arithmetic (dirname/basename strings) is not decided.",
+   technique="field def/use over provenance terms + table join with C05's accessor table + loop dominance"),
+ "C07": dict(cat="other", design="DESIGN.md §3 C07",
+   text="The metadata handed out with each archive entry must be selected through the entry's own identity (cpio name predicate or stripped file index); the newc header writer's field sequence and the reader's decoder sequence are compared positionally with each other and with the format oracle incl. all paddings; stripped-entry agreement; size source and read limit; single unconditional trailer with a shared constant; per-compression-type codec table (encoder, decoder, finish, header string, parser key).",
+   technique="provenance terms + sibling sequence extraction + arm tables"),
+ "C09": dict(cat="other", design="DESIGN.md §3 C09",
+   text="Layout-algorithm and constant-table rules: every emitted header comes from from_entries; the tag sort dominates the layout loop and its comparator orders by tag; no tag is emitted twice on one path; per-type alignment / terminator / count arm tables; region tag provenance and placement; lead constants; rpmlib() requirement rows with their guarding conditions; cpio entry name/mode/size provenance - all against oracle tables from rpm's format documentation. Numeric non-overlap of offsets is not re-derived beyond the per-type table.",
+   technique="dominance + arm-table extraction + provenance terms + oracle tables"),
 }
 
 NA = {
